@@ -242,6 +242,7 @@ main(int argc, char **argv)
         static char line[65536];
         static IMB_JOB *burst[IMB_MAX_BURST_SIZE * 2 + 8];
         uint32_t burst_n = 0;
+        IMB_JOB *last_offered = NULL;
 
         while (fgets(line, sizeof(line), f)) {
                 char *tok = strtok(line, " \n");
@@ -250,13 +251,18 @@ main(int argc, char **argv)
                 snap();
                 if (!strcmp(tok, "N")) {
                         IMB_JOB *j = IMB_GET_NEXT_JOB(mgr);
+                        last_offered = j;
                         printf("N | r=%d", slot_of(j));
-                } else if (!strcmp(tok, "S")) {
+                } else if (!strcmp(tok, "S") || !strcmp(tok, "SN")) {
+                        /* SN: the application obtained its slot with an earlier IMB_GET_NEXT_JOB ("N"), made other calls
+                         * (flush, get-completed, queue-size) and only now fills and submits it, without asking again */
+                        const int again = strcmp(tok, "SN") != 0 || last_offered == NULL;
                         const int check = atoi(strtok(NULL, " \n"));
                         const int kind = atoi(strtok(NULL, " \n"));
                         const uint64_t id = strtoull(strtok(NULL, " \n"), NULL, 10);
                         const unsigned len = (unsigned) atoi(strtok(NULL, " \n"));
-                        IMB_JOB *j = IMB_GET_NEXT_JOB(mgr);
+                        IMB_JOB *j = again ? IMB_GET_NEXT_JOB(mgr) : last_offered;
+                        last_offered = NULL;
                         fill(j, kind, id, len);
                         fresh[slot_of(j) / sizeof(IMB_JOB)] = 1;
                         IMB_JOB *r = check ? IMB_SUBMIT_JOB(mgr) : IMB_SUBMIT_JOB_NOCHECK(mgr);
